@@ -22,6 +22,7 @@ def main():
     seed = int(os.environ.get("VERIF_SEED", "0"))
     if a.tier == "thorough":
         os.environ.setdefault("VERIF_SOLVER_TIMEOUT_MS", "900000")  # inherited by the worker processes
+        os.environ.setdefault("VERIF_CROSSCHECK", "2")  # per configuration, re-check up to 2 unsat property queries with cvc5
     prop = a.prop.upper()
     mod = importlib.import_module("checks." + prop.lower())
     if a.replay:
